@@ -54,6 +54,11 @@ type c10Scenario struct {
 	TakenNamesAtFrame int
 	// the output directory and its constant-recordings folder are symbolic links
 	SymlinkedDirs bool
+	// output-dir in config.toml is a relative path; the working directory differs from the
+	// configuration directory
+	RelativeOutDir bool
+	// the uncrashed run must leave at least this many complete recordings in the output directory
+	WantComplete int
 	// that many finished recordings are already waiting in the output directory and in
 	// constant-recordings (an upload backlog) before the connection starts
 	Backlog int
@@ -171,6 +176,8 @@ func c10Scenarios() []c10Scenario {
 	c13.MaxSecs = 2
 	s13 := c10Scenario{Name: "S13", What: "3000 finished recordings already wait in the output directory and in constant-recordings (upload backlog); constant recorder on, with a motion recording", Cfg: c13, Cam: cam, Frames: c10Frames(cam, "ffffmmmffffffffffffff"), Backlog: 3000}
 	out = append(out, s13)
+	s14 := c10Scenario{Name: "S14", What: "output-dir is a relative path and the working directory is not the configuration directory; one motion recording", Cfg: base(), Cam: cam, Frames: c10Frames(cam, "ffffmmmffffffffff"), RelativeOutDir: true, WantComplete: 1}
+	out = append(out, s14)
 	c9 := base()
 	c9.Throttle, c9.BucketSize, c9.MinRefill = true, "3s", "200ms"
 	c9.MaxSecs = 30
@@ -274,6 +281,7 @@ func TestVerif_C10Child(t *testing.T) {
 		t.Fatalf("unknown scenario %q", name)
 	}
 	prepareSymlinkedOut = sc.SymlinkedDirs
+	prepareRelativeOut = sc.RelativeOutDir
 	r, err := prepareConn(root, sc.Cfg, sc.Cam)
 	if err != nil {
 		t.Fatal(err)
@@ -497,7 +505,7 @@ func TestVerif_C10(t *testing.T) {
 	defer c.Finish()
 	scratch := vEnv("VERIF_SCRATCH", t.TempDir())
 	scs := c10Scenarios()
-	quickSet := map[string]bool{"S1": true, "S3": true, "S4": true, "S5": true, "S6": true, "S8": true, "S10": true, "S11": true, "S12": true, "S13": true}
+	quickSet := map[string]bool{"S1": true, "S3": true, "S4": true, "S5": true, "S6": true, "S8": true, "S10": true, "S11": true, "S12": true, "S13": true, "S14": true}
 	for si, sc := range scs {
 		if !c.Thorough() && !quickSet[sc.Name] {
 			continue
@@ -562,6 +570,19 @@ func TestVerif_C10(t *testing.T) {
 				}
 				// I1 on the directory as found after the kill
 				bad, complete := scanComplete(o.OutDir)
+				if sc.RelativeOutDir {
+					// o.OutDir is <conn>/cwd/out-rel
+					for _, decoy := range relativeOutDecoys(filepath.Dir(filepath.Dir(o.OutDir))) {
+						if l := dirListing(decoy); len(l) > 0 {
+							c.Violation("files-outside-the-output-directory", sc.Name, fmt.Sprintf("%s: output-dir is the relative path out-rel (working directory %s), yet %s holds %v", where, filepath.Dir(o.OutDir), decoy, l))
+							return
+						}
+					}
+				}
+				if n == 0 && complete < sc.WantComplete {
+					c.Violation("recording-not-in-output-directory", sc.Name, fmt.Sprintf("%s: the connection ended normally, yet the configured output directory %s holds %d complete recording(s), expected at least %d (listing: %v)", where, o.OutDir, complete, sc.WantComplete, dirListing(o.OutDir)))
+					return
+				}
 				if len(bad) > 0 {
 					c.Violation("incomplete-file-bears-cptv-name", sc.Name+"; found after kill", where+": "+strings.Join(bad, "; "))
 					return
